@@ -224,7 +224,8 @@ CHECKS = {
         assumptions=HIST_ASSUME,
         jobs=[dict(test="TestC05Election", quick=T(4, 60), thorough=T(8, 150, 0, 3000)),
               dict(test="TestC05Candidates", quick=T(3, 50), thorough=T(6, 120, 0, 3000)),
-              dict(test="TestC05Reorg", quick=T(1, 40), thorough=T(2, 100, 0, 3000))],
+              dict(test="TestC05Reorg", quick=T(1, 40), thorough=T(2, 100, 0, 3000)),
+              dict(test="TestC05Race", race=True, quick=T(2, 8), thorough=T(6, 60, 0, 3000))],
     ),
     "C09": dict(
         level="exploration",
